@@ -340,6 +340,44 @@ def separator_literal(ctx, rep, clause):
     rep.floor('CALL-literal', 'uses of a sep parameter in the formula modules', n, 4)
 
 
+def fresh_count_per_component(ctx, rep, clause):
+    """the count added for a component is bound anew in every iteration of the component loop (on every path), so a
+    component written without a count cannot inherit the count of the component before it"""
+    from ..guards import assigned_on_every_path
+    program = ctx.program
+    k = 0
+    for fname in ('_parse_condensed_chem_formula', '_parse_split_chem_formula'):
+        f = program.func(f'{CU}:{fname}')
+        c = Canon(f.node)
+        for loop in [x for x in walk_own(f.node) if isinstance(x, (ast.For, ast.While))]:
+            for st in ast.walk(loop):
+                tgt = None
+                if isinstance(st, ast.AugAssign) and isinstance(st.target, ast.Subscript) and isinstance(st.op, ast.Add):
+                    tgt, val = st.target, st.value
+                elif isinstance(st, ast.Assign) and isinstance(st.targets[0], ast.Subscript) and \
+                        isinstance(st.value, ast.BinOp) and isinstance(st.value.op, ast.Add):
+                    tgt, val = st.targets[0], st.value
+                if tgt is None:
+                    continue
+                d = norm_stmt(tgt.value)
+                addends = {y.id for y in ast.walk(val) if isinstance(y, ast.Name) and c.is_local(y.id) and y.id != d
+                           and y.id not in {z.id for z in ast.walk(tgt.slice) if isinstance(z, ast.Name)}}
+                for name in sorted(addends):
+                    # only loops that contain the store directly (innermost) are judged
+                    inner = [l for l in ast.walk(loop) if isinstance(l, (ast.For, ast.While)) and l is not loop and
+                             any(z is st for z in ast.walk(l))]
+                    if inner:
+                        continue
+                    k += 1
+                    ok = assigned_on_every_path(loop.body, name, st)
+                    ob(rep, 'ACC', f.fq, f'the count added by `{c.text(st)[:60]}` is bound in the same iteration on every path',
+                       ok is True, 'definitely assigned before the store',
+                       f'`{name}` is added to the composition but some path through the loop body reaches the store '
+                       f'without binding it: the value of the previous component is used (a symbol written without a '
+                       f'count inherits the count before it: C2H2O -> O2)', f.loc(st), clause)
+    rep.floor('ACC', 'count addends in the component loops', k, 1)
+
+
 def explicit_zero(ctx, rep, clause):
     """an omitted count means 1; a written count of 0 means 0 (the bundled monosaccharide table writes H0O3S1).
     The default therefore has to be decided on the count *text*, never on the truthiness of the converted number"""
@@ -374,7 +412,8 @@ def explicit_zero(ctx, rep, clause):
                 ob(rep, 'TOK-formula', f.fq, f'`{norm_stmt(x)[:70]}`: the default applies iff the count text is empty',
                    bool(same), 'tested on the text', f'the default is chosen by `{norm_stmt(x.test)}`, which is not the '
                    f'text being converted', f.loc(x), clause)
-    rep.floor('TOK-formula', 'count defaults in the formula parsers', n, 2)
+    rep.floor('TOK-formula', 'count defaults in the formula parsers', n, 1)
+    fresh_count_per_component(ctx, rep, clause)
 
 
 def check(ctx, rep):
